@@ -758,11 +758,11 @@ fn rename_objects(merge_module: &mut Module, rename_table: &HashMap<String, Stri
             }
         }
         // MODULE.VARIANT_CODING.VAR_CHARACTERISTIC
+        // (the criterion_name_list refers to VAR_CRITERIONs, not to objects, so it is not renamed)
         for var_characteristic in &mut variant_coding.var_characteristic {
             if let Some(newname) = rename_table.get(&var_characteristic.name) {
                 var_characteristic.name = newname.to_owned();
             }
-            rename_item_list(&mut var_characteristic.criterion_name_list, rename_table);
         }
     }
 }
